@@ -15,46 +15,75 @@
 (*               two mutation root fields into one request): operation kind x  *)
 (*               layout (root fields per request) x first field non-null x P x *)
 (*               d x mode.                                                     *)
+(*  PHASE=subs : hand-built subscription plans at the resolve level (trigger +  *)
+(*               root object from the event + a nested request per update):    *)
+(*               root non-null? x P (<= MaxP of the 6 families) x d x mode.    *)
+(* Round 3: mode "both" (BatchAuthorizer and Authorizer set together); partial  *)
+(* = only the coordinate c of a family carries the rule (and is denied); fail   *)
+(* = the authorizer returns an ERROR for one protected family (fail closed).    *)
 (* One initial state per case; BFS prints each exactly once.                  *)
 EXTENDS Integers, Sequences, FiniteSets, TLC, Json, IOUtils, AuthzMenu
 CONSTANT MaxP
-VARIABLES op, P, den, mode, delivery, split
-vars == <<op, P, den, mode, delivery, split>>
+VARIABLES op, P, den, mode, delivery, split, partial, fail
+vars == <<op, P, den, mode, delivery, split, partial, fail>>
 MenuPhase == IOEnv.PHASE = "menu"
 SynthPhase == IOEnv.PHASE = "synth"
-Ops == IF MenuPhase \/ SynthPhase THEN <<>> ELSE ndJsonDeserialize(IOEnv.OPS)
+SubsPhase == IOEnv.PHASE = "subs"
+Ops == IF MenuPhase \/ SynthPhase \/ SubsPhase THEN <<>> ELSE ndJsonDeserialize(IOEnv.OPS)
 Layouts == {<<2>>, <<3>>, <<1, 2>>, <<2, 1>>}
+SubFams == {"Subscription.ev", "Event.id", "Event.secret", "Event.detail", "Detail.text", "Detail.note"}
+Modes == {"post", "batch", "both"}
 RECURSIVE SumSeq(_)
 SumSeq(s) == IF s = <<>> THEN 0 ELSE Head(s) + SumSeq(Tail(s))
 SeqRange(s) == {s[i] : i \in DOMAIN s}
+Plain == split = "" /\ partial = FALSE /\ fail = ""
 Init ==
   IF MenuPhase
   THEN /\ op \in DOMAIN Menu
-       /\ P = {} /\ den = {} /\ mode = "menu" /\ delivery = "menu" /\ split = ""
+       /\ P = {} /\ den = {} /\ mode = "menu" /\ delivery = "menu" /\ Plain
   ELSE IF SynthPhase
   THEN \* op = [kind, layout, nnfirst]; P, den = sets of root field numbers
        /\ op \in [kind : {"query", "mutation", "subscription"}, layout : Layouts, nnfirst : BOOLEAN]
        /\ P \in SUBSET (1..SumSeq(op.layout))
        /\ den \in SUBSET P
-       /\ mode \in {"post", "batch"}
-       /\ delivery = "sync" /\ split = ""
+       /\ mode \in Modes
+       /\ delivery = "sync" /\ Plain
+  ELSE IF SubsPhase
+  THEN /\ op \in [rootnn : BOOLEAN]
+       /\ P \in {p \in SUBSET SubFams : Cardinality(p) <= MaxP}
+       /\ den \in SUBSET P
+       /\ mode \in Modes
+       /\ delivery = "sync" /\ split = "" /\ partial = FALSE
+       /\ fail \in {""} \cup (IF Cardinality(P) <= 2 THEN P \ den ELSE {})
   ELSE /\ op \in DOMAIN Ops
-       /\ mode \in {"post", "batch"}
        /\ delivery \in (IF Ops[op].defer THEN {"sync", "defer"} ELSE {"sync"})
-       /\ \/ /\ split = ""
+       /\ \/ /\ Plain
+             /\ mode \in Modes
              /\ P \in {p \in SUBSET SeqRange(Ops[op].fams) : Cardinality(p) <= MaxP}
              /\ den \in SUBSET P
+          \/ \* the authorizer fails for one protected family that is not otherwise denied
+             /\ split = "" /\ partial = FALSE
+             /\ mode \in Modes
+             /\ P \in {p \in SUBSET SeqRange(Ops[op].fams) : Cardinality(p) \in 1..2}
+             /\ den \in SUBSET P
+             /\ fail \in P \ den
           \/ \E i \in DOMAIN Ops[op].splits :
                 LET s == Ops[op].splits[i] IN
-                /\ split = s.c
-                /\ \/ P = {s.fam} /\ den = {s.c}
-                   \/ \E G \in SeqRange(Ops[op].fams) \ {s.fam} :
+                /\ split = s.c /\ fail = ""
+                /\ mode \in {"post", "batch"}
+                /\ \/ partial = FALSE /\ P = {s.fam} /\ den = {s.c}
+                   \/ partial = FALSE /\ \E G \in SeqRange(Ops[op].fams) \ {s.fam} :
                         P = {s.fam, G} /\ den \in {{s.c}, {s.c, G}}
+                   \/ \* only c itself carries the rule
+                      partial = TRUE /\ P = {s.c} /\ den = {s.c}
 Spec == Init /\ [][FALSE]_vars
 Emit ==
   IF MenuPhase
   THEN PrintT(ToJson(Menu[op]))
   ELSE IF SynthPhase
   THEN PrintT(ToJson([synth |-> op, P |-> P, deny |-> den, mode |-> mode]))
-  ELSE PrintT(ToJson([op |-> Ops[op].id, P |-> P, deny |-> den, mode |-> mode, delivery |-> delivery, split |-> split]))
+  ELSE IF SubsPhase
+  THEN PrintT(ToJson([subs |-> op, P |-> P, deny |-> den, mode |-> mode, fail |-> fail]))
+  ELSE PrintT(ToJson([op |-> Ops[op].id, P |-> P, deny |-> den, mode |-> mode, delivery |-> delivery, split |-> split,
+                      partial |-> partial, fail |-> fail]))
 =============================================================================
